@@ -7,7 +7,7 @@
 From Coq Require Import List NArith ZArith Bool Lia.
 From PM Require Import Base.Bytes Base.Outcome Gen.GenConsts Model.ScriptAst Model.Enqueue Model.Script Model.Device Model.DevHarness
                        Model.Client Model.CliWorld Model.Daemon Spec.Proto
-                       Proofs.ClientProto Proofs.ClientStream Proofs.DeviceInv Proofs.DeviceRun Proofs.DeviceInvG Proofs.DeviceRunG Proofs.DaemonLedger Proofs.DaemonFrame
+                       Proofs.ClientProto Proofs.ClientStream Proofs.DeviceInv Proofs.DeviceRun Proofs.DeviceInvG Proofs.DeviceRunG Proofs.DeviceHang Proofs.DaemonLedger Proofs.DaemonFrame
                        Proofs.DaemonPending Proofs.DeviceMask Proofs.DeviceDeadline Proofs.DaemonDeadline Proofs.DeviceDeadlineDaemonEx
                        Proofs.DeviceDeadlineBackoff Proofs.DaemonProgress.
 From PM Require Properties.C07.
@@ -79,7 +79,7 @@ Lemma steady_dev0 st now : DPInv C07.ex_compress st -> length (dm_devs st) = 1%n
   forall j d1, nth_error (dm_devs st) j = Some d1 -> forall t, tmo_pos t -> steady now d1 t (dev_pin st j (nth j [] passin0)).
 Proof.
   intros I Hl Hc j d1 Hn t Ht.
-  assert (Hd : DInvRG C07.ex_compress d1) by (pose proof (dp_devs _ _ I) as H; rewrite Forall_forall in H; apply H; eapply nth_error_In; exact Hn).
+  assert (Hd : DInvRG C07.ex_compress d1) by (pose proof (dp_devs _ _ I) as H; rewrite Forall_forall in H; apply DInvH_RG, H; eapply nth_error_In; exact Hn).
   destruct j as [|j]; [|exfalso; assert (nth_error (dm_devs st) (S j) = None) by (apply nth_error_None; lia); congruence].
   apply (steady_quiet_io C07.ex_compress); [exact (proj1 Hd)|exact Ht|exact (Hc d1 Hn)|].
   unfold dev_pin, with_pre. cbn [nth]. destruct (nth 0 (dm_pipe st) true); cbn [fst pi_read passin0]; unfold quiet_io; cbn; rewrite andb_false_r; reflexivity.
